@@ -114,15 +114,37 @@ def check_barriers(ck, fn, tag, free_nodes):
                     b = match.binop(par, ("=",))
                     if b and (strip_casts(b[1]) is node or any(y is x for y in ir.walk(b[1]))):
                         written = True
-                out.append((x, own, written, dtable.describe(idx)))
+                member = node.get("member") if node.get("k") == "MemberExpr" else None
+                # node is the outermost lvalue; find the member directly selected on the slot element
+                mm = None
+                q = fn.parent(x)
+                while q is not None and q["k"] in ("ArraySubscriptExpr", "CXXOperatorCallExpr", "ImplicitCastExpr"):
+                    q = fn.parent(q)
+                if q is not None and q["k"] == "MemberExpr":
+                    mm = q.get("member")
+                out.append((x, own, written, dtable.describe(idx), mm))
         return out
     viol = False
     for field in ("temporary", "pieces"):
         acc = accesses(field)
         writes_own = [a for a in acc if a[1] and a[2]]
         cross = [a for a in acc if not a[1]]
+        blocked = []
+        for top in kids(fn.body):
+            if top["k"] == "IfStmt":
+                vals, node, lastif = set(), top, None
+                while node is not None and node["k"] == "IfStmt":
+                    b = match.binop(kids(node)[0], ("==",))
+                    if b and ir.ref_name(b[1]) == "mwmsa" and const_int(b[2]) is not None:
+                        vals.add(const_int(b[2]))
+                    lastif = node
+                    node = kids(node)[2]
+                if node is None and vals >= {0, 1} and lastif is not None:
+                    e = g.false_edge_of(lastif["id"])
+                    if e:
+                        blocked.append(e)          # no valid splitting algorithm takes this edge
         # in the sampling branch pieces[iam][s] is only ever own; cross = index not exactly iam
-        for (x, own, wr, idx) in cross:
+        for (x, own, wr, idx, mem) in cross:
             px = g.pos_deep(x)
             ws = [w for w in waits if g.pos(w) and g.dominates(g.pos(w), px)]
             if not ws:
@@ -132,11 +154,12 @@ def check_barriers(ck, fn, tag, free_nodes):
                 viol = True
                 continue
             # every own write of this field that can reach x must be separated from it by a barrier
-            for (y, _, _, _) in writes_own:
+            for (y, _, _, _, ymem) in writes_own:
+                if mem is not None and ymem is not None and mem != ymem:
+                    continue
                 py = g.pos_deep(y)
-                if py and g.reachable(py, px) and not any(g.dominates(py, g.pos(w)) and (g.dominates(g.pos(w), px) or w in ws) for w in ws):
-                    # writes after the read in program order (different branch) are irrelevant
-                    if g.dominates(py, px):
+                if py and g.path_between_avoiding(py, px, [g.pos(w) for w in waits if g.pos(w)], blocked) is not None:
+                    if True:
                         ck.violation("BARRIER-PHASES", fn.qname, "%s:%s[%s]:write" % (tag, field, idx), "a thread's own write to sd->%s and another thread's read of that slot are not separated by a barrier" % field, fn.nloc(x))
                         viol = True
         if field == "temporary":
@@ -145,7 +168,7 @@ def check_barriers(ck, fn, tag, free_nodes):
                 if fnode is None:
                     continue
                 pf = g.pos_deep(fnode)
-                for (x, own, wr, idx) in cross:
+                for (x, own, wr, idx, mem) in cross:
                     px = g.pos_deep(x)
                     if not any(g.pos(w) and g.dominates(px, g.pos(w)) is not None and g.dominates(g.pos(w), pf) and not g.dominates(g.pos(w), px) for w in waits):
                         ck.violation("BARRIER-PHASES", fn.qname, "%s:release" % tag, "temporary[iam] is destroyed / released while other threads may still read it (no barrier after the merge)", fn.nloc(fnode))
